@@ -254,4 +254,320 @@ theorem wrong_role_other_rejected (s : State) (m : Msg) (t : TextAddr) (r : Role
   · exact absurd hv' hv
   · rw [hd]; exact ⟨by simp, rfl⟩
 
+/-! ## Part 2: frames — an accepted message changes only the records it addresses -/
+
+/-- Specification: the records a message may change (everything else must stay as it is).
+* provider / node messages: the sender's own provider / node record;
+* `planStatus id`: plan `id`; `planLink/planUnlink id node`: the link `(id, node)`;
+* `subCancel id`: subscription `id`, its payout, and the sessions indexed under that subscription;
+* `subAllocate id`: the allocations of the owner and of the grantee in subscription `id`;
+* `sessUpdate/sessEnd id`: session `id`;
+* creation / purchase / start: only the *new* record(s) with the next free id (a purchase creates
+  the buyer's allocation or payout with it) — no existing provider, node, plan or session record;
+* `swap`: no marketplace record at all. -/
+def footprint (s : State) : Msg → Footprint
+  | .provRegister frm .. => { Footprint.empty with prov := (· = frm.bytes) }
+  | .provUpdate frm .. => { Footprint.empty with prov := (· = frm.bytes) }
+  | .nodeRegister frm .. => { Footprint.empty with node := (· = frm.bytes) }
+  | .nodeUpdate frm .. => { Footprint.empty with node := (· = frm.bytes) }
+  | .nodeStatus frm _ => { Footprint.empty with node := (· = frm.bytes) }
+  | .nodeSubscribe frm .. => { Footprint.empty with sub := (· = newSubId s), alloc := (· = (newSubId s, frm.bytes)), payout := (· = newSubId s) }
+  | .planCreate .. => { Footprint.empty with plan := (· = newPlanId s) }
+  | .planStatus _ id _ => { Footprint.empty with plan := (· = id) }
+  | .planLink _ id node => { Footprint.empty with link := (· = (id, node.bytes)) }
+  | .planUnlink _ id node => { Footprint.empty with link := (· = (id, node.bytes)) }
+  | .planSubscribe frm .. => { Footprint.empty with sub := (· = newSubId s), alloc := (· = (newSubId s, frm.bytes)) }
+  | .subCancel _ id => { Footprint.empty with sub := (· = id), payout := (· = id), sess := fun sid => (id, sid) ∈ s.sessForSub.keys }
+  | .subAllocate frm id grantee _ => { Footprint.empty with alloc := fun k => k = (id, frm.bytes) ∨ k = (id, grantee.bytes) }
+  | .sessStart .. => { Footprint.empty with sess := (· = newSessId s) }
+  | .sessUpdate _ id .. => { Footprint.empty with sess := (· = id) }
+  | .sessEnd _ id _ => { Footprint.empty with sess := (· = id) }
+  | .swap .. => Footprint.empty
+
+/-- Handler level: every handler changes records only inside its footprint. -/
+theorem handle_within_footprint {s s' : State} (hk : KeysOK s) {m : Msg} (h : m.handle s = .ok s') :
+    ChangesWithin (footprint s m) s s' := by
+  cases m <;> simp only [Msg.handle] at h <;> simp only [footprint]
+  case provRegister => exact cw_provRegister h rfl
+  case provUpdate => exact cw_provUpdate h hk rfl
+  case nodeRegister => exact cw_nodeRegister h rfl
+  case nodeUpdate => exact cw_nodeUpdate h hk rfl
+  case nodeStatus => exact cw_nodeStatus h hk rfl
+  case nodeSubscribe => exact cw_nodeSubscribe h rfl rfl rfl
+  case planCreate => exact cw_planCreate h rfl
+  case planStatus => exact cw_planStatus h hk rfl
+  case planLink => exact cw_planLink h rfl
+  case planUnlink => exact cw_planUnlink h rfl
+  case planSubscribe => exact cw_planSubscribe h rfl rfl
+  case subCancel => exact cw_subCancel h hk rfl rfl (fun _ h => h)
+  case subAllocate => exact cw_subAllocate h hk (Or.inl rfl) (Or.inr rfl)
+  case sessStart => exact cw_sessStart h rfl
+  case sessUpdate => exact cw_sessUpdate h hk rfl
+  case sessEnd => exact cw_sessEnd h hk rfl
+  case swap => exact cw_swap h
+
+theorem footprint_clr (s : State) (m : Msg) : footprint (clr s) m = footprint s m := by cases m <;> rfl
+
+/-- **C07, frame half.** Whatever `deliver` does — accept or reject — every provider, node, plan,
+link, subscription, allocation, payout and session record outside the message's footprint is
+unchanged. -/
+theorem changes_within_footprint (s : State) (hk : KeysOK s) (m : Msg) :
+    ChangesWithin (footprint s m) s (deliver s m).1 := by
+  rcases deliver_cases s m with ⟨s', _, hh, hd⟩ | ⟨msg, hd, _⟩
+  · rw [hd]
+    have := handle_within_footprint hk.clr hh
+    rw [footprint_clr] at this
+    exact (cw_of_recs (F := footprint s m) (s := s) (s' := clr s) rfl).trans this
+  · rw [hd]; exact cw_of_recs rfl
+
+/-! ### table by table: a record changes only by a message of its owner -/
+
+theorem changed_imp_accept {s : State} {m : Msg} (h : recs (deliver s m).1 ≠ recs s) : (deliver s m).2 = .accept := by
+  by_contra hn
+  rw [deliver_not_accept hn] at h
+  exact h rfl
+
+theorem getNode_congr {s s' : State} {b : Addr} (h1 : s'.nodeActive.get b = s.nodeActive.get b)
+    (h2 : s'.nodeInactive.get b = s.nodeInactive.get b) : getNode s' b = getNode s b := by
+  unfold getNode; rw [h1, h2]
+
+theorem getProvider_congr {s s' : State} {b : Addr} (h1 : s'.provActive.get b = s.provActive.get b)
+    (h2 : s'.provInactive.get b = s.provInactive.get b) : getProvider s' b = getProvider s b := by
+  unfold getProvider; rw [h1, h2]
+
+theorem getPlan_congr {s s' : State} {i : Nat} (h1 : s'.planActive.get i = s.planActive.get i)
+    (h2 : s'.planInactive.get i = s.planInactive.get i) : getPlan s' i = getPlan s i := by
+  unfold getPlan; rw [h1, h2]
+
+/-- A message that is not accepted changes no record. -/
+theorem not_accept_recs {s : State} {m : Msg} (h : (deliver s m).2 ≠ .accept) : recs (deliver s m).1 = recs s := by
+  rw [deliver_not_accept h]; rfl
+
+/-- The node messages. -/
+def isNodeMsg : Msg → Bool
+  | .nodeRegister .. | .nodeUpdate .. | .nodeStatus .. => true
+  | _ => false
+
+/-- The provider messages. -/
+def isProvMsg : Msg → Bool
+  | .provRegister .. | .provUpdate .. => true
+  | _ => false
+
+/-- **Node records**: if the record of node `b` (present or absent) is different after a message,
+the message was an accepted node message (register, update details, update status) sent by `b`.
+In particular purchases, session starts and usage reports change no node record. -/
+theorem node_record_changes_only_by_owner (s : State) (hk : KeysOK s) (m : Msg) (b : Addr)
+    (hch : getNode (deliver s m).1 b ≠ getNode s b) :
+    (deliver s m).2 = .accept ∧ isNodeMsg m = true ∧ m.sender = b := by
+  have hcw := changes_within_footprint s hk m
+  have hfp : (footprint s m).node b := by
+    by_contra hn
+    exact hch (getNode_congr (hcw.nodeA b hn) (hcw.nodeI b hn))
+  have hacc : (deliver s m).2 = .accept := by
+    by_contra hn
+    have := not_accept_recs hn
+    exact hch (getNode_congr (by rw [show (deliver s m).1.nodeActive = s.nodeActive from congrArg Recs.nodeActive this])
+      (by rw [show (deliver s m).1.nodeInactive = s.nodeInactive from congrArg Recs.nodeInactive this]))
+  refine ⟨hacc, ?_⟩
+  cases m <;> simp only [footprint, Footprint.empty] at hfp <;> first | exact absurd hfp id | exact ⟨rfl, hfp.symm⟩
+
+/-- **Provider records**: changed only by an accepted provider message (register, update) sent by
+that provider. -/
+theorem provider_record_changes_only_by_owner (s : State) (hk : KeysOK s) (m : Msg) (b : Addr)
+    (hch : getProvider (deliver s m).1 b ≠ getProvider s b) :
+    (deliver s m).2 = .accept ∧ isProvMsg m = true ∧ m.sender = b := by
+  have hcw := changes_within_footprint s hk m
+  have hfp : (footprint s m).prov b := by
+    by_contra hn
+    exact hch (getProvider_congr (hcw.provA b hn) (hcw.provI b hn))
+  have hacc : (deliver s m).2 = .accept := by
+    by_contra hn
+    have := not_accept_recs hn
+    exact hch (getProvider_congr (by rw [show (deliver s m).1.provActive = s.provActive from congrArg Recs.provActive this])
+      (by rw [show (deliver s m).1.provInactive = s.provInactive from congrArg Recs.provInactive this]))
+  refine ⟨hacc, ?_⟩
+  cases m <;> simp only [footprint, Footprint.empty] at hfp <;> first | exact absurd hfp id | exact ⟨rfl, hfp.symm⟩
+
+/-- **Plans**: plan `id` differs after a message only if the message was an accepted `planStatus id`
+from the plan's provider, or an accepted `planCreate` (by a registered provider) that issued `id`
+as the next free plan id. -/
+theorem plan_record_changes_only_by_owner (s : State) (hk : KeysOK s) (m : Msg) (id : Nat)
+    (hch : getPlan (deliver s m).1 id ≠ getPlan s id) :
+    (deliver s m).2 = .accept ∧
+    ((∃ frm st, m = .planStatus frm id st ∧ (getPlan s id).map (·.prov) = some frm.bytes) ∨
+     (∃ frm d g p, m = .planCreate frm d g p ∧ id = newPlanId s ∧ ∃ pr, getProvider s frm.bytes = some pr)) := by
+  have hcw := changes_within_footprint s hk m
+  have hfp : (footprint s m).plan id := by
+    by_contra hn
+    exact hch (getPlan_congr (hcw.planA id hn) (hcw.planI id hn))
+  have hacc : (deliver s m).2 = .accept := by
+    by_contra hn
+    have := not_accept_recs hn
+    exact hch (getPlan_congr (by rw [show (deliver s m).1.planActive = s.planActive from congrArg Recs.planActive this])
+      (by rw [show (deliver s m).1.planInactive = s.planInactive from congrArg Recs.planInactive this]))
+  refine ⟨hacc, ?_⟩
+  cases m <;> simp only [footprint, Footprint.empty] at hfp <;> try exact absurd hfp id
+  case planCreate frm d g p =>
+    right
+    have := planCreate_guard (deliver_accept hacc).2
+    exact ⟨frm, d, g, p, rfl, hfp, this⟩
+  case planStatus frm pid st =>
+    left
+    subst hfp
+    exact ⟨frm, st, rfl, accepted_sender_is_owner s _ rfl hacc⟩
+
+/-- An *existing* plan (its id was issued: `id ≤ planCount`) changes only by its provider's
+`planStatus`. -/
+theorem existing_plan_changes_only_by_owner (s : State) (hk : KeysOK s) (m : Msg) (id : Nat)
+    (hissued : id ≤ s.planCount.getD 0) (hch : getPlan (deliver s m).1 id ≠ getPlan s id) :
+    ∃ frm st, m = .planStatus frm id st ∧ (getPlan s id).map (·.prov) = some frm.bytes := by
+  rcases (plan_record_changes_only_by_owner s hk m id hch).2 with h | ⟨_, _, _, _, _, h, _⟩
+  · exact h
+  · unfold newPlanId at h; omega
+
+/-- **Plan–node links**: the link `(id, n)` changes only by an accepted `planLink`/`planUnlink id n`
+from the plan's provider. -/
+theorem link_changes_only_by_plan_owner (s : State) (hk : KeysOK s) (m : Msg) (id : Nat) (n : Addr)
+    (hch : (deliver s m).1.nodeForPlan.get (id, n) ≠ s.nodeForPlan.get (id, n)) :
+    (deliver s m).2 = .accept ∧ (getPlan s id).map (·.prov) = some m.sender ∧
+    ((∃ frm node, m = .planLink frm id node ∧ node.bytes = n) ∨ (∃ frm node, m = .planUnlink frm id node ∧ node.bytes = n)) := by
+  have hcw := changes_within_footprint s hk m
+  have hfp : (footprint s m).link (id, n) := by
+    by_contra hn
+    exact hch (hcw.link _ hn)
+  have hacc : (deliver s m).2 = .accept := by
+    by_contra hn
+    have := not_accept_recs hn
+    exact hch (by rw [show (deliver s m).1.nodeForPlan = s.nodeForPlan from congrArg Recs.nodeForPlan this])
+  refine ⟨hacc, ?_⟩
+  cases m <;> simp only [footprint, Footprint.empty] at hfp <;> try exact absurd hfp id
+  case planLink frm pid node =>
+    simp only [Prod.mk.injEq] at hfp
+    obtain ⟨rfl, rfl⟩ := hfp
+    exact ⟨accepted_sender_is_owner s _ rfl hacc, Or.inl ⟨frm, node, rfl, rfl⟩⟩
+  case planUnlink frm pid node =>
+    simp only [Prod.mk.injEq] at hfp
+    obtain ⟨rfl, rfl⟩ := hfp
+    exact ⟨accepted_sender_is_owner s _ rfl hacc, Or.inr ⟨frm, node, rfl, rfl⟩⟩
+
+/-- A purchase. -/
+def isPurchase : Msg → Bool
+  | .nodeSubscribe .. | .planSubscribe .. => true
+  | _ => false
+
+/-- **Subscriptions**: subscription `id` changes only by an accepted `subCancel id` from its owner,
+or it is the new subscription created by an accepted purchase (next free id). -/
+theorem sub_record_changes_only_by_owner (s : State) (hk : KeysOK s) (m : Msg) (id : Nat)
+    (hch : (deliver s m).1.subs.get id ≠ s.subs.get id) :
+    (deliver s m).2 = .accept ∧
+    ((∃ frm, m = .subCancel frm id ∧ (s.subs.get id).map (·.addr) = some frm.bytes) ∨
+     (isPurchase m = true ∧ id = newSubId s)) := by
+  have hcw := changes_within_footprint s hk m
+  have hfp : (footprint s m).sub id := by
+    by_contra hn
+    exact hch (hcw.sub _ hn)
+  have hacc : (deliver s m).2 = .accept := by
+    by_contra hn
+    have := not_accept_recs hn
+    exact hch (by rw [show (deliver s m).1.subs = s.subs from congrArg Recs.subs this])
+  refine ⟨hacc, ?_⟩
+  cases m <;> simp only [footprint, Footprint.empty] at hfp <;> try exact absurd hfp id
+  case nodeSubscribe => exact Or.inr ⟨rfl, hfp⟩
+  case planSubscribe => exact Or.inr ⟨rfl, hfp⟩
+  case subCancel frm sid =>
+    subst hfp
+    exact Or.inl ⟨frm, rfl, accepted_sender_is_owner s _ rfl hacc⟩
+
+/-- **Allocations** (sharing): the allocation of `a` in subscription `id` changes only by an accepted
+`subAllocate id` from the subscription's owner (and then `a` is the owner or the grantee), or it is
+the buyer's allocation in the subscription a purchase just created. -/
+theorem alloc_changes_only_by_owner (s : State) (hk : KeysOK s) (m : Msg) (id : Nat) (a : Addr)
+    (hch : (deliver s m).1.allocs.get (id, a) ≠ s.allocs.get (id, a)) :
+    (deliver s m).2 = .accept ∧
+    ((∃ frm grantee bytes, m = .subAllocate frm id grantee bytes ∧ (a = frm.bytes ∨ a = grantee.bytes) ∧
+        (s.subs.get id).map (·.addr) = some frm.bytes) ∨
+     (isPurchase m = true ∧ id = newSubId s ∧ a = m.sender)) := by
+  have hcw := changes_within_footprint s hk m
+  have hfp : (footprint s m).alloc (id, a) := by
+    by_contra hn
+    exact hch (hcw.alloc _ hn)
+  have hacc : (deliver s m).2 = .accept := by
+    by_contra hn
+    have := not_accept_recs hn
+    exact hch (by rw [show (deliver s m).1.allocs = s.allocs from congrArg Recs.allocs this])
+  refine ⟨hacc, ?_⟩
+  cases m <;> simp only [footprint, Footprint.empty, Prod.mk.injEq] at hfp <;> try exact absurd hfp id
+  case nodeSubscribe => exact Or.inr ⟨rfl, hfp.1, hfp.2⟩
+  case planSubscribe => exact Or.inr ⟨rfl, hfp.1, hfp.2⟩
+  case subAllocate frm sid grantee bytes =>
+    have hid : id = sid := by rcases hfp with h | h <;> exact h.1
+    subst hid
+    refine Or.inl ⟨frm, grantee, bytes, rfl, ?_, accepted_sender_is_owner s _ rfl hacc⟩
+    rcases hfp with h | h
+    · exact Or.inl h.2
+    · exact Or.inr h.2
+
+/-- **Payouts**: changed only by the owner's `subCancel`, or created by a purchase. -/
+theorem payout_changes_only_by_owner (s : State) (hk : KeysOK s) (m : Msg) (id : Nat)
+    (hch : (deliver s m).1.payouts.get id ≠ s.payouts.get id) :
+    (deliver s m).2 = .accept ∧
+    ((∃ frm, m = .subCancel frm id ∧ (s.subs.get id).map (·.addr) = some frm.bytes) ∨
+     (isPurchase m = true ∧ id = newSubId s)) := by
+  have hcw := changes_within_footprint s hk m
+  have hfp : (footprint s m).payout id := by
+    by_contra hn
+    exact hch (hcw.payout _ hn)
+  have hacc : (deliver s m).2 = .accept := by
+    by_contra hn
+    have := not_accept_recs hn
+    exact hch (by rw [show (deliver s m).1.payouts = s.payouts from congrArg Recs.payouts this])
+  refine ⟨hacc, ?_⟩
+  cases m <;> simp only [footprint, Footprint.empty] at hfp <;> try exact absurd hfp id
+  case nodeSubscribe => exact Or.inr ⟨rfl, hfp⟩
+  case subCancel frm sid =>
+    subst hfp
+    exact Or.inl ⟨frm, rfl, accepted_sender_is_owner s _ rfl hacc⟩
+
+/-- **Sessions**: session `sid` changes only by an accepted usage report from its node, an accepted
+`sessEnd` from the account that started it, the cancellation — by the subscription's owner — of a
+subscription under which it is indexed, or it is the new session created by an accepted `sessStart`
+(next free id: no existing session is touched by a start). -/
+theorem session_changes_only_by_owner (s : State) (hk : KeysOK s) (m : Msg) (sid : Nat)
+    (hch : (deliver s m).1.sessions.get sid ≠ s.sessions.get sid) :
+    (deliver s m).2 = .accept ∧
+    ((∃ frm up down dur sig, m = .sessUpdate frm sid up down dur sig ∧ (s.sessions.get sid).map (·.node) = some frm.bytes) ∨
+     (∃ frm r, m = .sessEnd frm sid r ∧ (s.sessions.get sid).map (·.addr) = some frm.bytes) ∨
+     (∃ frm j, m = .subCancel frm j ∧ (j, sid) ∈ s.sessForSub.keys ∧ (s.subs.get j).map (·.addr) = some frm.bytes) ∨
+     (∃ frm j node, m = .sessStart frm j node ∧ sid = newSessId s)) := by
+  have hcw := changes_within_footprint s hk m
+  have hfp : (footprint s m).sess sid := by
+    by_contra hn
+    exact hch (hcw.sess _ hn)
+  have hacc : (deliver s m).2 = .accept := by
+    by_contra hn
+    have := not_accept_recs hn
+    exact hch (by rw [show (deliver s m).1.sessions = s.sessions from congrArg Recs.sessions this])
+  refine ⟨hacc, ?_⟩
+  cases m <;> simp only [footprint, Footprint.empty] at hfp <;> try exact absurd hfp id
+  case subCancel frm j =>
+    exact Or.inr (Or.inr (Or.inl ⟨frm, j, rfl, hfp, accepted_sender_is_owner s _ rfl hacc⟩))
+  case sessStart frm j node => exact Or.inr (Or.inr (Or.inr ⟨frm, j, node, rfl, hfp⟩))
+  case sessUpdate frm j up down dur sig =>
+    subst hfp
+    exact Or.inl ⟨frm, up, down, dur, sig, rfl, accepted_sender_is_owner s _ rfl hacc⟩
+  case sessEnd frm j r =>
+    subst hfp
+    exact Or.inr (Or.inl ⟨frm, r, rfl, accepted_sender_is_owner s _ rfl hacc⟩)
+
+/-- **C07 in one statement** for the owner-gated kinds: the message changes the state at all only
+if its sender is the owner of the addressed resource, and then only inside its footprint. -/
+theorem record_changes_only_by_owner (s : State) (hk : KeysOK s) (m : Msg) (hg : ownerGated m = true) :
+    ((deliver s m).1 ≠ { s with events := [] } → owner s m = some m.sender) ∧
+    ChangesWithin (footprint s m) s (deliver s m).1 := by
+  refine ⟨?_, changes_within_footprint s hk m⟩
+  intro hne
+  apply accepted_sender_is_owner s m hg
+  by_contra hn
+  exact hne (deliver_not_accept hn)
+
 end Hub.Props.C07
